@@ -571,6 +571,11 @@ func (x *Exec) convert(st *State, v Val, to types.Type, pos string) Val {
 				return Val{T: to, K: KScalar, S: v.S}
 			}
 		}
+		if x.con != nil && x.trusts("check lossless") {
+			// a narrowing conversion that writes a length or count must not lose information
+			lo, hi := intRange(tw, ts)
+			x.oblige(st, "lossless", "", pos, and(app("<=", lo, v.S), app("<=", v.S, hi)), nil)
+		}
 		r := st.define(x, "cv", "Int", x.wrapInt(v.S, tw, ts))
 		nv := Val{T: to, K: KScalar, S: r}
 		return nv
